@@ -392,8 +392,8 @@ def run_job(pl):
     l0.close()
     ops = alphabet(ab, len(sels), pl['thorough'])
     size = os.path.getsize(path)
-    c_open = 0.002 + size / 20e6
-    c_op = 0.0005 + size / 20e6 / max(1, ab.n)
+    c_open = 0.001 + size / 35e6
+    c_op = 0.0004 + size / 30e6 / max(1, ab.n)
     if pl.get('sequences') is not None:
         seqs = [[tuple(o) for o in s] for s in pl['sequences']]; kinds = ['given'] * len(seqs); complete = {}
     else:
@@ -467,7 +467,7 @@ def run_job(pl):
             elif op[0] == 'history':
                 if out != '-': fail('history:raises', seq, k, 'history raised %s' % out, 'no exception')
         lst.close()
-        impl_lines.append(','.join(line))
+        impl_lines.append(' '.join(line))
     # the abstract listing as a model case line
     init = fmt_tabs(ab.group_digests([np.zeros(s) for s in ab.shape]))
     sets = ''.join('%s:%d:%s;' % (zint(ab.times[i], den), int(ab.steps[i]), fmt_cells(ab.cells_at(i))) for i in range(ab.n))
@@ -513,6 +513,7 @@ def probe_nonuniform(path, skip, ab, pl):
         unass = ~ab.assigned[i][ti]
         cand_j = [j for j in range(ab.n) if j != i and ab.assigned[j][ti][unass].all()]
         cand_j = [j for j in cand_j if j != 0] + [j for j in cand_j if j == 0]
+        if len(cand_j) < 2 and 0 not in cand_j: continue       # nothing to compare with
         # does set i print more tables than the first one?  (reader-independent count of table intros)
         def ntables(k):
             seg = data[offs[k]:offs[k + 1]]
@@ -522,10 +523,10 @@ def probe_nonuniform(path, skip, ab, pl):
         found = None
         for j in cand_j[:2]:
             orig = ab.values[j][ti]
-            valset = set(float(x) for x in orig[unass])
+            valset = set(float(x) for x in orig[unass]) - {0.0}
             seg_lo, seg_hi = offs[j], offs[j + 1]
             toks = [m for m in FLOAT_RE.finditer(data, seg_lo, seg_hi) if fortran_float(m.group(0).decode('latin-1')) in valset]
-            for m in list(reversed(toks))[:60]:
+            for m in list(reversed(toks))[:80]:
                 old = m.group(0)
                 mm = re.search(rb'[EeDd]|(?<=[\d.])[-+]', old)
                 mant_end = mm.start() if mm else len(old)
@@ -545,13 +546,15 @@ def probe_nonuniform(path, skip, ab, pl):
                     ch = np.argwhere((now != orig) & unass)
                     if len(ch) == 0: continue
                     r, c = (int(x) for x in ch[0])
+                    via = j if j != 0 else [x for x in cand_j if x != 0][0] if [x for x in cand_j if x != 0] else None
+                    if via is None: continue
                     f = open_listing(p2, skip); f.index = i
-                    g = open_listing(p2, skip); g.index = j; g.index = i
+                    g = open_listing(p2, skip); g.index = via; g.index = i
                     fv, gv = float(getattr(f, name)._data[r, c]), float(getattr(g, name)._data[r, c])
                     f.close(); g.close()
-                    inp['ops'] = [['index', j], ['index', i]]
+                    inp['ops'] = [['index', via], ['index', i]]
                     found = {'key': key, 'input': inp, 'differs': bool(fv != gv),
-                             'observed': 'table %s row %d column %d at index %d: a fresh listing shows %r, after index=%d; index=%d it shows %r' % (name, r, c, i, fv, j, i, gv),
+                             'observed': 'table %s row %d column %d at index %d: a fresh listing shows %r, after index=%d; index=%d it shows %r' % (name, r, c, i, fv, via, i, gv),
                              'required': 'identical table contents however the result set was reached'}
                     break
                 finally:
@@ -672,7 +675,7 @@ def correspond_and_collect(ctx, exe, results, timeout):
         mtoks = r['model_line'].split('\t')[3:]
         for si, il in enumerate(r['impl_lines']):
             toks = mtoks[si].split(',')
-            nob = il.count(',') + 1 if il else 0
+            nob = il.count(' ') + 1 if il else 0
             if nob > 30:
                 for k in range(nob): ctx.count((j['label'], si, k))
             else:
@@ -688,7 +691,7 @@ def correspond_and_collect(ctx, exe, results, timeout):
             ctx.disagreement('nav-model-vs-t2listing', {'input': j['inp'], 'what': 'sequence count'}, str(len(mseq)), str(nseq)); continue
         for si, (m, i) in enumerate(zip(mseq, r['impl_lines'])):
             if m != i:
-                ml, il = m.split(','), i.split(',')
+                ml, il = m.split(' '), i.split(' ')
                 k = next((x for x in range(min(len(ml), len(il))) if ml[x] != il[x]), min(len(ml), len(il)))
                 ops = r['seq_ops'][si][:k + 1] if r.get('seq_ops') else None
                 ctx.disagreement('nav-model-vs-t2listing', {'input': dict(j['inp'], ops=ops), 'step': k},
@@ -727,7 +730,7 @@ def run(ctx):
         info = call_worker(ctx, {'fn': 'info_job', 'files': files}, 600)
         ctx.extra['files'] = {'shipped': len(files), 'with_2_or_more_times': sum(1 for d in info.values() if d.get('n', 0) >= 2),
                               'unreadable': {k: v['error'] for k, v in info.items() if 'error' in v}}
-        budget = 60.0 if ctx.thorough else 5.0
+        budget = 60.0 if ctx.thorough else 12.0
         timeout = 3000 if ctx.thorough else 300
         jobs = plan_jobs(ctx, info, tmpdir, budget)
         ctx.log('%d listings (files, truncated copies, skip variants); budget %.0f s each' % (len(jobs), budget))
